@@ -6,7 +6,8 @@ on_save_checkpoint, and the predictors' from_trained_models (best.ckpt, backbone
 
 design check : MC_Weights - every interleaving of Construct / Update / Save / InferLoad over two files up to 3 births and
                7 calls: SlotsKeepTheirKind, OverrideRules, ConstructSeparates, SaveLoadRoundTrip, FilesOnlyChangeBySave;
-               the counter-model "head checkpoint loaded without filtering its keys" must violate ConstructSeparates
+               the counter-model "head checkpoint loaded without filtering its keys" must violate ConstructSeparates;
+               Apalache discharges an inductive invariant (SlotsKeepTheirKind, NoUnbornAtom) for any number of calls
 spec -> code  : an edge cover of TLC's dumped state graph is replayed call by call on the REAL classes (module
                constructors, Trainer.save_checkpoint, Predictor.from_model_paths) for centred-instance, centroid and
                bottom-up models
@@ -171,6 +172,49 @@ class World:
         return ev
 
 
+def inductive(res):
+    """Unbounded safety: Apalache discharges an inductive invariant over the SAME actions (Weights.tla up to its properties
+    section + spec/WeightsInd.tla.in) - any number of calls and births (3 files)."""
+    import subprocess
+    from concurrent.futures import ThreadPoolExecutor
+    from harness.tlc import SPEC_DIR
+
+    src = open(os.path.join(SPEC_DIR, "Weights.tla")).read()
+    head = src[:src.index("-----------------------------------------------------------------------------\n(* properties *)")]
+    head = head.replace("MODULE Weights ", "MODULE WeightsInd ").replace("EXTENDS Integers, Sequences, FiniteSets, TLC", "EXTENDS Integers, Sequences, FiniteSets, Apalache")
+    c0, v0 = head.index("CONSTANTS Files"), head.index("None == ")
+    head = head[:c0] + 'Files == {"f1", "f2", "f3"}\nHeadWhole == FALSE\n\n' + head[v0:]
+    a, b = head.index("VARIABLES live"), head.index("vars == ")
+    head = head[:a] + ("VARIABLES\n  \\* @type: Str -> Int;\n  live,\n  \\* @type: Str -> (Str -> Int);\n  file,\n  \\* @type: Int;\n  fresh,\n"
+                       "  \\* @type: Set(Int);\n  xav,\n  \\* @type: Seq(Str);\n  op\n") + head[b:]
+    tmp = tempfile.mkdtemp(prefix="verif_apa_")
+    try:
+        with open(os.path.join(tmp, "WeightsInd.tla"), "w") as f:
+            f.write(head + open(os.path.join(SPEC_DIR, "WeightsInd.tla.in")).read())
+        obligations = [("Init => IndInv", "Init", "IndInv", 0, "NoError"), ("IndInv /\\ Next => IndInv'", "IndInit", "IndInv", 1, "NoError"),
+                       ("IndInv => SlotsKeepTheirKind /\\ NoUnbornAtom", "IndInit", "Safety", 0, "NoError"),
+                       ("probe: states with written files admitted", "IndInit", "ProbeNoFileWritten", 0, "Error"),
+                       ("probe: states with a live module admitted", "IndInit", "ProbeNoModule", 0, "Error"),
+                       ("probe: a step is possible from the inductive states", "IndInit", "ProbeNoStep", 1, "Error")]
+
+        def one(k_ob):
+            k, (name, init, inv, length, want) = k_ob
+            cmd = ["apalache-mc", "check", "--init=" + init, "--inv=" + inv, "--length=%d" % length, "--out-dir=" + os.path.join(tmp, "out%d" % k), "WeightsInd.tla"]
+            p = subprocess.run(cmd, cwd=tmp, stdout=subprocess.PIPE, stderr=subprocess.STDOUT, text=True, timeout=1800)
+            got = "NoError" if "The outcome is: NoError" in p.stdout else ("Error" if "The outcome is: Error" in p.stdout else "?")
+            return name, want, got, p.stdout[-600:]
+
+        with ThreadPoolExecutor(max_workers=3) as ex:
+            outs = list(ex.map(one, list(enumerate(obligations))))
+        bad = [(n, w, g, o) for n, w, g, o in outs if w != g]
+        if bad:
+            raise TLCError("Apalache obligation '%s': expected %s, got %s\n%s" % bad[0])
+        res.coverage["inductive_invariant"] = dict(tool="apalache-mc 0.58", obligations=[o[0] for o in outs], discharged=len(outs),
+                                                   note="SlotsKeepTheirKind and NoUnbornAtom for any number of Construct / Update / Save / InferLoad calls (3 files)")
+    finally:
+        shutil.rmtree(tmp, ignore_errors=True)
+
+
 def run_ops(repo, kind, ops, tmp):
     d = tempfile.mkdtemp(prefix="w_", dir=tmp)
     try:
@@ -240,6 +284,8 @@ def run(tier, seed, only=None):
                 raise TLCError("design check failed: %s" % (r.violation,))
             r2 = check_model("MC_Weights", MC_CFG % ("TRUE", 2, 5, "PROPERTY ConstructSeparates"), timeout=600, expect_violation=("action_property", "ConstructSeparates"))
             res.add_mc("MC_Weights counter-model (head checkpoint loaded without filtering its keys)", r2, "must violate ConstructSeparates (expected)")
+
+            inductive(res)
 
             # spec -> code
             from harness.graph import dump_graph, edge_cover_paths
